@@ -11,7 +11,7 @@
    reported ratio" = every ratio that is defined. *)
 From Coq Require Import List Arith ZArith QArith Permutation Lia.
 Import ListNotations.
-From SV Require Import C15.Oks C15.Lemmas C16.Metrics C16.Lemmas.
+From SV Require Import C15.Oks C15.Lemmas C16.Metrics C16.Lemmas C16.LemmasPairs C16.LemmasDelete C16.LemmasState.
 Local Open Scope Q_scope.
 
 (* ---- (a) predictions identical to the ground truth ----
@@ -69,6 +69,74 @@ Theorem c16_perfect_pck_all_visible : forall n pps thrs q,
   mpck n pps thrs = Some q -> q == 1.
 Proof. exact mpck_perfect_all_visible. Qed.
 Print Assumptions c16_perfect_pck_all_visible.
+
+(* ---- frame pairing (find_frame_pairs over several videos) ----
+   (i, j) = positions of the gt / prediction frame in their Labels.  A pair is formed exactly for a gt
+   frame f whose Video has a prediction Video with an equal key (the first such), with the LAST
+   prediction frame of that video carrying f's frame index; with user_labels_only the frame needs a
+   user instance and only user instances take part. *)
+Theorem c16_frame_pairs_exact : forall ulo db gtL prL i j fp,
+  In ((i, j), fp) (find_pairs_pos ulo db gtL prL) <->
+  exists f vk vp pf,
+    nth_error (snd gtL) i = Some f /\ nth_error (fst gtL) (lf_video f) = Some vk /\
+    find_video vk (fst prL) 0 = Some vp /\ get_frame vp (lf_idx f) (snd prL) = Some (j, pf) /\
+    (ulo = true -> gt_poses ulo f <> []) /\ fp = the_pair ulo db i j f pf.
+Proof. exact in_find_pairs_pos. Qed.
+Print Assumptions c16_frame_pairs_exact.
+
+Theorem c16_find_video_first : forall k vs p,
+  find_video k vs 0 = Some p <->
+  (exists k', nth_error vs p = Some k' /\ vkey_eqb k' k = true) /\
+  (forall q k', (q < p)%nat -> nth_error vs q = Some k' -> vkey_eqb k' k = false).
+Proof. exact find_video_first. Qed.
+Print Assumptions c16_find_video_first.
+
+Theorem c16_get_frame_last : forall vi idx fs,
+  match get_frame vi idx fs with
+  | Some (j, x) => nth_error fs j = Some x /\ lf_video x = vi /\ lf_idx x = idx /\
+                   (forall j' x', (j < j')%nat -> nth_error fs j' = Some x' -> ~ (lf_video x' = vi /\ lf_idx x' = idx))
+  | None => forall j x, nth_error fs j = Some x -> ~ (lf_video x = vi /\ lf_idx x = idx)
+  end.
+Proof. exact get_frame_last. Qed.
+Print Assumptions c16_get_frame_last.
+
+(* every gt frame enters at most one pair *)
+Theorem c16_gt_frame_paired_once : forall ulo db gtL prL,
+  NoDup (map (fun x : (nat * nat) * (gframe * pframe) => fst (fst x)) (find_pairs_pos ulo db gtL prL)).
+Proof. exact find_pairs_gt_once. Qed.
+Print Assumptions c16_gt_frame_paired_once.
+
+(* npig of voc_metrics = positive pairs + false negatives = every participating gt instance of the
+   paired frames, each once; and the Evaluator's only failure (F51 repaired) is "Empty Frame Pairs" *)
+Theorem c16_every_gt_instance_counted : forall fx ulo thr db gtL prL pps nfn,
+  process fx ulo thr db gtL prL = Ok (pps, nfn) ->
+  find_pairs ulo db gtL prL <> [] /\
+  (length pps + nfn =
+   fold_right Nat.add 0 (map (fun fp => length (frame_gts fp)) (find_pairs ulo db gtL prL)))%nat.
+Proof. exact process_conservation. Qed.
+Print Assumptions c16_every_gt_instance_counted.
+
+Theorem c16_evaluator_outcome : forall ulo thr db gtL prL,
+  (find_pairs ulo db gtL prL = [] /\ process true ulo thr db gtL prL = ErrEmpty) \/
+  (find_pairs ulo db gtL prL <> [] /\ exists r, process true ulo thr db gtL prL = Ok r).
+Proof. exact process_outcome. Qed.
+Print Assumptions c16_evaluator_outcome.
+
+(* state: Evaluator(user_labels_only=True) overwrites `lf.instances` of the gt frames of paired videos
+   (mutate_gt / mutate_db).  The overwrite is idempotent — a second Evaluator with the same option on the
+   same label objects forms the same frame pairs and returns the same report — and user_labels_only=False
+   modifies nothing.  (After user_labels_only=True a later user_labels_only=False Evaluator sees only the
+   user instances: that is `evaluate_after _ _ true false`, compared with the code on every run.) *)
+Theorem c16_second_evaluator_same_pairs : forall db gtL prL,
+  find_pairs_pos true (mutate_db true gtL prL db) (mutate_gt true gtL prL) prL = find_pairs_pos true db gtL prL.
+Proof. exact find_pairs_mutate_idem. Qed.
+Print Assumptions c16_second_evaluator_same_pairs.
+
+Theorem c16_second_evaluator_same_report : forall rnd fx thr n db gtL prL m r k,
+  evaluate_after rnd fx true true thr n db gtL prL m r k = evaluate rnd fx true thr n db gtL prL m r k /\
+  (forall u2, evaluate_after rnd fx false u2 thr n db gtL prL m r k = evaluate rnd fx u2 thr n db gtL prL m r k).
+Proof. exact evaluate_after_same. Qed.
+Print Assumptions c16_second_evaluator_same_report.
 
 (* ---- (b) every reported ratio lies in [0,1] ---- *)
 Theorem c16_voc_bounds : forall rnd,
@@ -143,13 +211,16 @@ Definition recalls (o : outcome report) : list Q :=
   | _ => []
   end.
 
+Definition wgt : labels := ([(0%nat, 0%nat)], [LF 0 0 [(wA, None); (wB, None)]]).
+Definition wpr (ps : list inst) : labels := ([(0%nat, 0%nat)], [LF 0 0 ps]).
+
 Theorem c16_delete_prediction_refuted :
   exists (M M' : smatrix),
     (* both predictions: P1 = A shifted (score 7/8) and P2 = A exactly (score 1/2) *)
-    recalls (evaluate round_f64 false true 0 3 [(0%nat, [wA; wB], M)] [(0%nat, [wA2; wA], [7 # 8; 1 # 2])]
+    recalls (evaluate round_f64 false true 0 3 [(0%nat, 0%nat, M)] wgt (wpr [(wA2, Some (7 # 8)); (wA, Some (1 # 2))])
                       [1 # 2] [0; 1 # 2; 1] [1]) = [0] /\
     (* P1 deleted (M' = M without its column) *)
-    recalls (evaluate round_f64 false true 0 3 [(0%nat, [wA; wB], M')] [(0%nat, [wA], [1 # 2])]
+    recalls (evaluate round_f64 false true 0 3 [(0%nat, 0%nat, M')] wgt (wpr [(wA, Some (1 # 2))])
                       [1 # 2] [0; 1 # 2; 1] [1]) = [1 # 2] /\
     M' = map (fun row => tl row) M.
 Proof.
@@ -159,28 +230,66 @@ Qed.
 Print Assumptions c16_delete_prediction_refuted.
 
 (* the strongest statement proved: deleting prediction p from the processing order
-   (o1 ++ p :: o2) of a frame.  Unless p was matched to a gt instance g for which some
-   prediction processed later (in o2) is eligible (OKS > match threshold) — exactly
-   selector_F6 — the number of pairs with OKS >= t does not grow and the number of gt
+   (o1 ++ p :: o2, no prediction twice: c16_processing_order_nodup) of a frame.  selector_F6 =
+   p was matched to a gt instance g, and some prediction q processed later (in o2) is eligible for g
+   (OKS(g,q) > match threshold) and was itself unmatched or matched with an OKS <= OKS(g,q) (so q takes,
+   or may take, g once it is free).  Outside the selector the run after p is unchanged: the new pairs
+   are among the old ones, the number of pairs with OKS >= t does not grow and the number of gt
    instances (pairs + missed) is unchanged, for every match-score threshold t. *)
-Definition selector_F6 (M : smatrix) (thr : Q) (p : nat) (o2 : list nat) (ms : list mpair) : Prop :=
-  exists g v q, In (g, p, v) ms /\ In q o2 /\ ~ ineligible thr (mget M g q).
-
 Theorem c16_delete_prediction_partial : forall M thr o1 p o2 avail t ms missed ms' missed',
+  NoDup (o1 ++ p :: o2) ->
   match_loop M thr (o1 ++ p :: o2) avail = (ms, missed) ->
   match_loop M thr (o1 ++ o2) avail = (ms', missed') ->
   ~ selector_F6 M thr p o2 ms ->
   (count_ge t (map oks_of ms') <= count_ge t (map oks_of ms))%nat /\
-  (length ms' + length missed' = length ms + length missed)%nat.
-Proof.
-  intros M thr o1 p o2 avail t ms missed ms' missed' H H' Hsel.
-  apply (delete_prediction_partial_narrow M thr o1 p o2 avail t ms missed ms' missed' H H').
-  intros g v Hin q Hq. unfold ineligible. destruct (mget M g q) as [x|] eqn:E; [|exact I].
-  destruct (Qlt_le_dec thr x) as [Hlt|Hle]; [|exact Hle].
-  exfalso. apply Hsel. exists g, v, q. split; [exact Hin|]. split; [exact Hq|].
-  rewrite E. cbn. apply Qlt_not_le. exact Hlt.
-Qed.
+  (length ms' + length missed' = length ms + length missed)%nat /\
+  (forall m, In m ms' -> In m ms).
+Proof. exact delete_prediction_selector. Qed.
 Print Assumptions c16_delete_prediction_partial.
+
+(* the order match_instances processes the predictions in never holds a prediction twice *)
+Theorem c16_processing_order_nodup : forall scores, NoDup (argsort_desc scores).
+Proof.
+  intros scores. eapply Permutation_NoDup; [apply Permutation_sym; apply argsort_desc_perm|apply seq_NoDup].
+Qed.
+Print Assumptions c16_processing_order_nodup.
+
+(* the former, wider exclusion (any later prediction eligible for g), for arbitrary processing orders *)
+Theorem c16_delete_prediction_no_later_eligible_partial : forall M thr o1 p o2 avail t ms missed ms' missed',
+  match_loop M thr (o1 ++ p :: o2) avail = (ms, missed) ->
+  match_loop M thr (o1 ++ o2) avail = (ms', missed') ->
+  (forall g v, In (g, p, v) ms -> forall q, In q o2 -> ineligible thr (mget M g q)) ->
+  (count_ge t (map oks_of ms') <= count_ge t (map oks_of ms))%nat /\
+  (length ms' + length missed' = length ms + length missed)%nat.
+Proof. exact delete_prediction_partial_narrow. Qed.
+Print Assumptions c16_delete_prediction_no_later_eligible_partial.
+
+(* the witness of c16_delete_prediction_refuted lies inside the selector (P2 is eligible for A, OKS 1,
+   and was unmatched) *)
+Example ex_c16_witness_in_selector :
+  let M := [[Some (1 # 268336); Some 1]; [Some 0; Some 0]] in
+  match_loop M 0 [0; 1]%nat [0; 1]%nat = ([(0%nat, 0%nat, 1 # 268336)], [1%nat]) /\
+  selector_F6 M 0 0%nat [1%nat] [(0%nat, 0%nat, 1 # 268336)].
+Proof.
+  split; [vm_compute; reflexivity|]. exists 0%nat, (1 # 268336), 1%nat, 1.
+  split; [left; reflexivity|]. split; [left; reflexivity|]. split; [reflexivity|]. split; [reflexivity|].
+  intros g' v' [H|[]]. inversion H.
+Qed.
+
+(* a deletion the former selector excused and this one does not: the later prediction (1) is eligible
+   for the freed instance 0 (OKS 1/4) but strictly prefers its own match (instance 1, OKS 3/4) *)
+Example ex_c16_selector_narrower :
+  let M := [[Some (1 # 2); Some (1 # 4)]; [Some 0; Some (3 # 4)]] in
+  match_loop M 0 [0; 1]%nat [0; 1]%nat = ([(0%nat, 0%nat, 1 # 2); (1%nat, 1%nat, 3 # 4)], []) /\
+  ~ selector_F6 M 0 0%nat [1%nat] [(0%nat, 0%nat, 1 # 2); (1%nat, 1%nat, 3 # 4)] /\
+  ~ ineligible 0 (mget M 0 1).
+Proof.
+  split; [vm_compute; reflexivity|]. split.
+  - intros [g [v [q [x [Hin [Hq [Hx [Hlt Hall]]]]]]]]. destruct Hq as [Hq|[]]. subst q.
+    destruct Hin as [Hin|[Hin|[]]]; inversion Hin; subst. cbn in Hx. inversion Hx; subst x.
+    specialize (Hall 1%nat (3 # 4) (or_intror (or_introl eq_refl))). revert Hall. vm_compute. intros Hc. apply Hc. reflexivity.
+  - cbn. vm_compute. intros Hc. apply Hc. reflexivity.
+Qed.
 
 (* corollary in the words of the task: deleting an unmatched prediction, or the one
    processed last (lowest score), never increases recall *)
